@@ -398,6 +398,7 @@ func checkC14(c *vlib.Ctx) {
 	// minimise and classify every refuting request (in parallel, reported in order)
 	type res struct {
 		sig    string
+		sig2   string // a second, independent cause the reduced statement still needs
 		detail c14Detail
 	}
 	results := make([]res, len(bad))
@@ -444,6 +445,9 @@ func checkC14(c *vlib.Ctx) {
 						return v
 					}
 					results[j] = res{sig: signature(ms, fs, epEss, hdrEss, alone), detail: d}
+					if fastPathEssential(ms) {
+						results[j].sig2 = fastPathSig
+					}
 				} else {
 					d.Minimal, d.MinFind, d.MinStatus = tc.Req, verdicts[i].findings, verdicts[i].o.Status
 					for _, a := range tc.Alt {
@@ -464,6 +468,10 @@ func checkC14(c *vlib.Ctx) {
 		results[j].detail.Note = "replay: ./check C14 --replay <this file>; {ROOT}/{REL}/{FILE:db/m} stand for the node's storage root"
 		sigCount[results[j].sig]++
 		c.Violation(results[j].sig, results[j].detail)
+		if results[j].sig2 != "" {
+			sigCount[results[j].sig2]++
+			c.Violation(results[j].sig2, results[j].detail)
+		}
 	}
 	var sigs []string
 	for s := range sigCount {
